@@ -435,7 +435,7 @@ def case_order(ctx, job, idx, rng, st, o, date0):
                   msg=f"propagate({t} s) returns a state {norm(out[:3] - yk[:3])!r} m away from the integration node at that instant")
     # ---- observed order on the finest pair whose errors are above the rounding floor -------------
     rn = norm(rt)
-    floor = 1e3 * EPS * rn * math.sqrt(max(nst))  # accumulated rounding ~ eps r sqrt(N); x1000
+    floor = 300 * EPS * rn * max(nst)  # accumulated rounding <= eps r N; x300 so that it inflates an error by < 1 %
     wo = dict(W, errors_m=errs, energy_drift=dE, angmom_drift=dH, steps=nst)
     est = {}
     if errs[1] > floor:
